@@ -72,7 +72,16 @@ func cellsOf(c *core.Ctx, s *refavro.Schema, t *gen.T) {
 func runC13(c *core.Ctx, i int) {
 	r := c.Rand(i, 0)
 	ds := gen.GenDataSchema(r, gen.DataOpts{CallerMode: true, MaxDepth: 1 + r.IntN(3)})
+	if i%8 == 5 {
+		ds = gen.GenFixedWidthSchema(r) // records of float/double/fixed only
+		c.Count("fixed-width-only-schemas", 1)
+	}
 	t := ds.Target(r, ds.S, gen.TargetOpts{PlainNullPrimOnly: true, OmitTags: true})
+	if i%3 == 2 {
+		// the Go struct lists its fields in another order than the caller's schema does
+		t = gen.Permute(r, t)
+		c.Count("permuted-targets", 1)
+	}
 	rt := t.RT()
 	c.Journal(c.CurCase(), "schema="+trunc(ds.S.JSON(), 300))
 	codec, err := buildLibCodec(ds.S, rt)
@@ -141,7 +150,7 @@ func init() {
 		ID:        "C13",
 		Level:     "exploration",
 		Technique: "runtime monitoring: codecs built from generated caller schemas are driven over in-range values; written bytes are decoded by the independent reference decoder (strict, exact consumption) and compared with the value's datum, then read back through the codec",
-		Rule: "caller-mode schema (unions with null first and second, int/long/float/double, logical date/timestamp types, fixed, nested records/arrays/maps) + covering Go target (integer widths, float widths, pointers, time.Time and null.* wrappers) + 8 in-range values each, all from (VERIF_SEED, i); " +
+		Rule: "caller-mode schema (unions with null first and second, int/long/float/double, logical date/timestamp types, fixed, nested records/arrays/maps) + covering Go target (integer widths, float widths, pointers, time.Time and null.* wrappers) + 8 in-range values each, all from (VERIF_SEED, i); one case in three permutes the Go struct's fields against the schema order; one in eight uses records of float/double/fixed fields only; " +
 			"distinct_nontrivial = distinct (schema shape, Go type shape) pairings for which a codec was built and at least one value written and read back",
 		Explanation: "Values are produced by decoding a generated datum with the model (so they are inside the schema type's range by construction); the reference decoder must consume exactly the bytes written and yield the datum the model assigns to the value (null position honoured, logical types by the specification's meaning); Codec.Read of those bytes must give the value back.",
 		Assumptions: []string{"a quarter of the struct fields carry omitempty (zero non-pointer values under a union are then expected as null); nil pointers occur only under a union; single-/multi-branch unions (explicitly unimplemented on the write side) are not generated"},
